@@ -73,7 +73,10 @@ pub fn run_shard(args: &ShardArgs) -> ShardResult {
     util::set_shard_tag(args.shard as u64);
     util::clock::init();
     prop.setup();
-    let budget = prop.budget(args.tier);
+    let mut budget = prop.budget(args.tier);
+    if let Some(n) = std::env::var("VERIF_CASES").ok().and_then(|s| s.parse::<u32>().ok()) {
+        budget.cases = n; // exploration aid; registered commands never set it
+    }
     let known = findings::for_property(prop.id());
     let t0 = std::time::Instant::now();
 
